@@ -190,11 +190,14 @@ def split_at_loop(fi: FuncInfo, which: int = 0, kind=(ast.For, ast.While)):
     if STRICT_LOOPS and len(idxs) > 1 and fi.qualname in FLATTENED:
         raise AnalysisError(f"{fi.qualname}: {len(idxs)} top-level loops in the helper-flattened form; which one is the function's own is not decided")
     k = idxs[which]
+    nl_ = normalise_while(fi, body[k])
     READ_LOOPS[fi.qualname] = (fi, body[k])
-    return body[:k], normalise_while(fi, body[k]), body[k + 1:]
+    NORMAL_LOOPS[fi.qualname] = nl_
+    return body[:k], nl_, body[k + 1:]
 
 
 READ_LOOPS: Dict[str, Any] = {}          # qualname -> FuncInfo of every function whose main loop a rule took apart in this run
+NORMAL_LOOPS: Dict[str, Any] = {}        # qualname -> the same loop with its guard-clause breaks folded into the test (what the rules read)
 ACCOUNTED: Dict[str, list] = {}          # qualname -> predicates over ast.Return nodes: early exits a rule has judged
 STRICT_LOOPS = False          # second reading (helper-flattened program): "the loop" of a function must be the only candidate
 FLATTENED: set = set()        # qualnames read in flattened form
@@ -378,8 +381,10 @@ def locate_loop(fi: FuncInfo, which: int = 0, kind=(ast.For, ast.While)):
     if STRICT_LOOPS and len({id(f_[1]) for f_ in found}) > 1 and fi.qualname in FLATTENED:
         raise AnalysisError(f"{fi.qualname}: {len(found)} loops outside other loops in the helper-flattened form; which one is the function's own is not decided")
     pre_, loop_, post_, conds_ = found[which]
+    nl_ = normalise_while(fi, loop_)
     READ_LOOPS[fi.qualname] = (fi, loop_)
-    return pre_, normalise_while(fi, loop_), post_, conds_
+    NORMAL_LOOPS[fi.qualname] = nl_
+    return pre_, nl_, post_, conds_
 
 
 def returned_names(stmts) -> Optional[set]:
@@ -898,3 +903,39 @@ def audit_return_forms(ctx):
                               ast.unparse(r)[:100], f"return the whole list ({cut.value.id})", construct=f"returned slice {fi.name}")
                 continue
             res.error(f"{q}: the return `{ast.unparse(r)[:70]}` (line {r.lineno}) after the main loop transforms the result and is not judged by any rule of this property - shape not recognised")
+
+
+ACCOUNTED_LOOP: Dict[str, bool] = {}     # qualname -> a rule has judged the break / return statements of the main loop
+
+
+def account_loop_exits(fi):
+    """A rule declares that it has judged every way the main loop of fi can be left early (its breaks and returns)."""
+    ACCOUNTED_LOOP[fi.qualname] = True
+
+
+def audit_loop_exits(res):
+    """A pass that can be left early does not visit everything it is stated to visit.  The loop readers take one iteration
+    apart; a `break` or `return` inside the main loop is only part of that picture when the rule looks at it.  One that no
+    rule has judged is a shape that was not read - exit 2."""
+    for q, (fi, loop) in sorted(READ_LOOPS.items()):
+        if ACCOUNTED_LOOP.get(q):
+            continue
+        found = []
+
+        def walk(stmts, depth):
+            for st in stmts:
+                if isinstance(st, (ast.FunctionDef, ast.AsyncFunctionDef, ast.ClassDef)):
+                    continue
+                if isinstance(st, ast.Break) and depth == 0:
+                    found.append(st)
+                elif isinstance(st, ast.Return):
+                    found.append(st)
+                for f_ in ("body", "orelse", "finalbody"):
+                    sub = getattr(st, f_, None)
+                    if isinstance(sub, list) and sub and isinstance(sub[0], ast.stmt):
+                        walk(sub, depth + (1 if isinstance(st, (ast.For, ast.While)) and f_ == "body" else 0))
+                for h in getattr(st, "handlers", []):
+                    walk(h.body, depth)
+        walk(NORMAL_LOOPS.get(q, loop).body, 0)     # (guard-clause breaks folded into the loop test are part of the test the rules read)
+        for n in found:
+            res.error(f"{q}: the main loop can be left early by `{ast.unparse(n)[:40]}` (line {n.lineno}), which no rule of this property has judged - shape not recognised")
